@@ -224,6 +224,30 @@ func TestC19(t *testing.T) {
 			c.Ev.MarkExhaustive("0..4 ইনপুট calls (bare, with prompt, with empty prompt, interleaved with prints) x 0..4 stdin lines x with/without final newline x 4 text rotations")
 		})
 
+		// stdin lines around the sizes at which a buffered reader hands a line over in pieces
+		c.Sub("long-stdin-lines", func(s *Sub) {
+			var k int64
+			src := fmt.Sprintf("%s a = %s();\n%s b = %s(\"p> \");\n%s \"<\" + b + \">\";\n%s c = %s();\n%s \"<\" + c + \">\";\n%s a == b;\n%s \"done\";\n", bn.KwVar, bn.BInput, bn.KwVar, bn.BInput, P, bn.KwVar, bn.BInput, P, P, P)
+			for _, size := range []int{4093, 4094, 4095, 4096, 4097, 8191, 8192, 8193, 12288, 65535, 65536, 65537, 200000} {
+				for _, term := range []string{"\n", "\r\n"} {
+					for _, unit := range []string{"x", "ক", " y "} {
+						for pos := 0; pos < 3; pos++ {
+							k++
+							if !c.Mine(k) {
+								continue
+							}
+							long := strings.Repeat(unit, size/len(unit)) + strings.Repeat("z", size%len(unit))
+							lines := []string{"first", "second", "third"}
+							lines[pos] = long
+							stdin := strings.Join(lines, term) + term + "fourth" + term
+							c.c19Script(s, "long-stdin-lines", src, stdin, "long-line", fmt.Sprintf("line-bytes-%d", size))
+						}
+					}
+				}
+			}
+			c.Ev.MarkExhaustive("13 line sizes around 4 KiB / 8 KiB / 64 KiB x LF and CRLF x three fill patterns x the long line first, second or third")
+		})
+
 		n := 300
 		if c.Thorough {
 			n = 3000
